@@ -11,6 +11,7 @@ import PdshVerif.Pcp.Overwrite
 import PdshVerif.Pcp.Merge
 import PdshVerif.Pcp.Recopy
 import PdshVerif.Pcp.FanOut
+import PdshVerif.Pcp.DeepSession
 import PdshVerif.Props.C03
 
 /-! # C11  pdcp/rpdcp reproduce the source tree exactly on every target
@@ -83,20 +84,42 @@ write faults (`o.fsize = none`).  Times are in microseconds, the resolution of t
                         system ends exactly as if those sources had not been named (induction `session_items`,
                         Pcp/Mixed.lean).  Generalises `error_isolated_refused_dir` (one refused directory, first) and
                         lifts `error_isolated_open` from the byte stream `itemsBytes` to the dialogue.
-* Pcp/Statics.lean   -- what K receivers of one process share besides the file system: the static objects and the
-                        process-wide calls of pcp_server.c, compared with the translation unit on every run.
+* `error_isolated_deep`
+                     -- the last clause for a copy ONTO AN EXISTING destination with entries of the wrong kind AT ANY
+                        DEPTH (Pcp/Deep.lean, Pcp/DeepSession.lean): every node of every source tree is classified by what
+                        the target holds at its place (`DTree`: arrives / regular file vs directory / directory vs regular
+                        file / directory entered, recursively); the interactive client in its repaired form and the receiver
+                        stay in step, the file system ends as `dTopFs` -- what can be written is there, an entry that cannot
+                        be written leaves no trace, what is in its way and everything below it is untouched --, and there is
+                        EXACTLY one error record per entry that cannot be written (mutual induction `session_dtree` /
+                        `session_dkids`).  Generalises `error_isolated_session` from the top level to any depth.
+* `forward_every_target`, `forward_copy_all_targets`
+                     -- a FORWARD copy to N targets: the product of dsh()'s fan-out LTS (Props/C03, imported) with one
+                        receiver per target on that target's own file system (Pcp/FanOut.lean).  In every execution -- any
+                        fanout, any schedule, the byte transfers of different targets interleaved in any way -- once dsh()
+                        has returned every target of the list has had exactly one connection (`exit_after_all`), has been
+                        fed every byte of its client's stream exactly once, and its receiver is in the state `run o fs
+                        stream` all other theorems speak about; hence (`copy_roundtrip`, `copy_meets_spec` per target) every
+                        target holds the copy, acknowledged throughout, and passes the specification.
+* Pcp/Statics.lean, Pcp/ClientStatics.lean
+                     -- what K receivers (rpdcp) resp. K client threads (pdcp) of one process share besides the file
+                        system / the read-only file list: the static objects and the process-wide calls of pcp_server.c and
+                        pcp_client.c, compared with the translation units on every run (pcp_client.c defines NONE).
 
 Modelled, not proved: the threads of the real rpdcp receiver are represented by sequential
 processing in an arbitrary order (assumption: the kernel serialises operations per path, and the
-targets' names are distinct, so the threads work on disjoint sub-trees); entries that cannot be written BELOW the
-top level of a copied tree can only exist inside directories that are already there (a merge in which the kinds
-DISAGREE somewhere down the tree): `copy_onto_existing` covers the merge when the kinds agree, `error_isolated_session`
-the disagreement at the top level; the disagreement deeper down is covered by the correspondence (pinned conflict
-cases at depth 2 and 3, session model `sess`) and by `error_isolated_open`/`copy_with_write_faults` at the byte level.
+targets' names are distinct, so the threads work on disjoint sub-trees).  `error_isolated_deep` covers entries that
+arrive on fresh names next to entries that cannot be written; the combination "existing regular file REPLACED
+(`copy_onto_existing`) next to an entry of the wrong kind in the same run" is covered by the correspondence only
+(session model `sess`, pinned conflict cases at depth 2 and 3, overwrite cases), and by `error_isolated_open` /
+`copy_with_write_faults` at the byte level.
 A source that cannot be READ: the repaired client (da13fc3) checks every entry with access(2) while it expands the
 sources and ends before the first byte is sent (stated, not modelled: the model's trees are readable; pinned end-to-end
 case `unreadable` as uid 1000 and the four refused-source kinds).
-Not proved: several targets of a forward copy (each runs this receiver on its own file system: C03/C09).
+Forward copy: a target whose connection FAILS is outside the fan-out LTS's alphabet (a failed connect goes through the
+same operations, C03) -- its stream is empty and its receiver never runs; the statement per target depends on that
+target's own data only.  That dsh.c refines the fan-out LTS is C03's correspondence, that the remote command line is
+the one the receiver model is started with is C09's (`cmdf`/`cmdr` here).
 For the client AS FOUND a directory that cannot be created scatters its entries (finding F11-DIRFAIL-SCATTER, fixed
 in /repo: `dirfail_scatter_witness`).
 -/
@@ -1143,6 +1166,135 @@ example :
       some (.file 0o640 (some ⟨3000, 250⟩) [88]) ∧
     (∀ r ∈ (sink xo (sink xo xfs (send xso xsrcs)).1 (send xso xsrcs)).2.1, r = Reply.ack) := by
   decide +kernel
+
+/-! ## entries of the wrong kind at any depth of a destination that already exists -/
+
+/-- **`error_isolated` for a copy onto an existing destination, at any depth** (the last clause of C11: "a file that
+cannot be ... written is reported for that host without corrupting any other file").  The user names the sources
+`items`; for each node of each source tree `DTree` says what the target holds at its place: nothing (`good`: the
+subtree arrives), a directory where the source has a regular file (`blockedFile`), a regular file where the source
+has a directory (`refusedDir`), or a directory where the source has one (`into`: entered, and the same question is
+asked for each of its entries -- to any depth).  For the interactive client in its repaired form: client and
+receiver stay in step through the whole list, the receiver consumes everything and ends at the top level; the file
+system is `dTopFs` -- every subtree that can be written is there exactly as `copy_roundtrip` describes, an existing
+directory that is entered keeps what the source does not name, and an entry that cannot be written leaves NO
+trace: what is in its way, and everything below it, is untouched (`dFs` of a blocked entry is the identity;
+`dFs_other`: nothing outside a tree's own name changes but the parent directory's time) --; and the replies are
+acknowledgements and EXACTLY ONE error record per entry that cannot be written (`dTopBad`; entries below a refused
+directory are not sent and not counted).  Generalises `error_isolated_session` (disagreement at the top level). -/
+theorem error_isolated_deep (o : Opts) (hc : CntOk o) (hnf : o.fsize = none) (so : SOpts) (co : COpts)
+    (hco : co.skipRefused = true) (hp : so.preserve = o.preserve) (fs : FS) (D : Path) (items : List (Str × DTree))
+    (budget : Nat) (hres : resolve fs o.cwd o.dest = some D) (hdir : fs.isDir D = true)
+    (hb : o.dest.length + budget < PCP_PATH_MAX) (hok : DTopOk so budget fs D items) :
+    (sessionEnd so co o fs (dTopSrcs items)).fs = dTopFs o so fs D items ∧
+    (∃ rs, (sessionEnd so co o fs (dTopSrcs items)).out.reverse = .ack :: rs ∧ RsI rs 0 (dTopBad items)) ∧
+    (sessionEnd so co o fs (dTopSrcs items)).phase = .done := by
+  have hv : VerifyOk o fs := fun _ => ⟨D, hres, hdir⟩
+  have h0 : enter o (St.init fs) o.dest =
+      { St.init fs with out := [.ack],
+                        stack := [{ targ := o.dest, targisdir := true, setimes := false, mt := default, atm := default }],
+                        phase := .start } := by
+    rw [enter_ok (p := D) hv hres hdir]
+    rfl
+  have hat : AtDir o (enter o (St.init fs) o.dest)
+      { targ := o.dest, targisdir := true, setimes := false, mt := default, atm := default } [] D := by
+    rw [h0]
+    exact ⟨rfl, rfl, rfl, hres, hdir, hv, ⟨usecOk_zero _, usecOk_zero _⟩⟩
+  have hfs0 : (enter o (St.init fs) o.dest).fs = fs := by rw [h0]; rfl
+  have hout0 : (enter o (St.init fs) o.dest).out = [.ack] := by rw [h0]
+  have hr := read_ack (s := { st := enter o (St.init fs) o.dest, sent := [], consumed := 0, failed := false,
+                              skip := 0, dead := false }) (old := []) rfl hout0
+  have hi : InSync ({ st := enter o (St.init fs) o.dest, sent := [], consumed := 0 + 1, failed := false,
+                      skip := 0, dead := false } : Sess) := ⟨rfl, rfl, by simp [hout0]⟩
+  obtain ⟨_, ⟨f2, hat2, _, _⟩, j3, _, rs, hout, hrs⟩ := session_dsrcs hc hnf so co hco hp budget [] D items
+    { st := enter o (St.init fs) o.dest, sent := [], consumed := 0 + 1, failed := false, skip := 0, dead := false }
+    _ hi hat (fun e => by cases e) hb (by show DTopOk so budget (enter o (St.init fs) o.dest).fs D items; rw [hfs0]; exact hok)
+  have hsess : (session so co o fs (expandAll (dTopSrcs items))).st =
+      ((expandAll (dTopSrcs items)).foldl (clientStep so co o)
+        { st := enter o (St.init fs) o.dest, sent := [], consumed := 0 + 1, failed := false, skip := 0,
+          dead := false }).st := by
+    unfold session
+    dsimp only
+    rw [hr]
+    simp only [Bool.not_true, Bool.false_eq_true, if_false]
+  unfold sessionEnd
+  rw [hsess]
+  generalize ((expandAll (dTopSrcs items)).foldl (clientStep so co o)
+      { st := enter o (St.init fs) o.dest, sent := [], consumed := 0 + 1, failed := false, skip := 0,
+        dead := false }).st = st3 at hat2 j3 hout
+  have hfin : finish o st3 = { st3 with stack := [], phase := .done } := by
+    unfold finish
+    simp only [hat2.phase]
+    unfold leave
+    simp only [hat2.stack]
+    rfl
+  rw [hfin]
+  refine ⟨?_, ⟨rs.reverse, ?_, ?_⟩, rfl⟩
+  · show st3.fs = _
+    rw [j3, hfs0]
+  · show st3.out.reverse = _
+    rw [hout, hout0]
+    simp
+  · exact ⟨fun r hr => hrs.1 r (List.mem_reverse.1 hr), by rw [List.count_reverse]; exact hrs.2.1,
+      by rw [List.count_reverse]; exact hrs.2.2⟩
+
+/-- `/w/d/t` is already there and holds a DIRECTORY `x` (with a file `x/k` in it) and a regular FILE `y`; the user
+copies `t`, which holds a new file `e`, a regular file `x` and a directory `y` with a file `y/z` -/
+def dfs : FS := fun p =>
+  if p = [] then some (.dir 0o755 none)
+  else if p = [[119]] then some (.dir 0o755 none)
+  else if p = [[119], [100]] then some (.dir 0o755 none)
+  else if p = [[119], [100], [116]] then some (.dir 0o755 none)
+  else if p = [[119], [100], [116], [120]] then some (.dir 0o700 none)
+  else if p = [[119], [100], [116], [120], [107]] then some (.file 0o600 none [75])
+  else if p = [[119], [100], [116], [121]] then some (.file 0o644 none [90])
+  else none
+
+def ditems : List (Str × DTree) :=
+  [([116], .into 0o755 0 0 [([101], .good (.file 0o644 0 0 [88])), ([120], .blockedFile 0o644 0 0 [65, 66]),
+                           ([121], .refusedDir 0o755 0 0 [([122], .file 0o600 0 0 [89])])])]
+
+/-- the run: `t/e` arrives, the directory `t/x` and the file in it and the file `t/y` are what they were, nothing of
+`t/y/z` appears, and exactly two of the replies are error records -/
+example :
+    (sessionEnd sso ⟨true⟩ ro dfs (dTopSrcs ditems)).fs [[119], [100], [116], [101]] = some (.file 0o644 none [88]) ∧
+    (sessionEnd sso ⟨true⟩ ro dfs (dTopSrcs ditems)).fs [[119], [100], [116], [120]] = some (.dir 0o700 none) ∧
+    (sessionEnd sso ⟨true⟩ ro dfs (dTopSrcs ditems)).fs [[119], [100], [116], [120], [107]] = some (.file 0o600 none [75]) ∧
+    (sessionEnd sso ⟨true⟩ ro dfs (dTopSrcs ditems)).fs [[119], [100], [116], [121]] = some (.file 0o644 none [90]) ∧
+    (sessionEnd sso ⟨true⟩ ro dfs (dTopSrcs ditems)).fs [[119], [100], [116], [121], [122]] = none ∧
+    (sessionEnd sso ⟨true⟩ ro dfs (dTopSrcs ditems)).out.reverse =
+      [.ack, .ack, .ack, .ack, .err .path, .err .path, .ack] := by
+  decide +kernel
+
+/-- ... and it is in the domain of `error_isolated_deep`, whose conclusion is the run above -/
+example :
+    (sessionEnd sso ⟨true⟩ ro dfs (dTopSrcs ditems)).fs = dTopFs ro sso dfs [[119], [100]] ditems ∧
+    (∃ rs, (sessionEnd sso ⟨true⟩ ro dfs (dTopSrcs ditems)).out.reverse = .ack :: rs ∧ RsI rs 0 2) := by
+  have e116 : sentName sso [116] true = [116] := by decide +kernel
+  have h := error_isolated_deep ro ⟨by decide, by decide⟩ rfl sso ⟨true⟩ rfl rfl dfs [[119], [100]] ditems 100
+    (by decide +kernel) (by decide +kernel) (by decide) (by
+      simp only [ditems, DTopOk, DOk, DKidsOk, e116, KidNamesOk, GoodTree]
+      refine ⟨Or.inl (by decide), ⟨goodName_single _ (by decide) (by decide) (by decide) (by decide), by decide, by decide,
+        by decide, ⟨0o755, none, by decide +kernel⟩,
+        by decide, ⟨⟨goodName_single _ (by decide) (by decide) (by decide) (by decide), by decide, by decide, by decide,
+          by decide⟩, trivial, ?_⟩, by simp,
+        by decide, ⟨goodName_single _ (by decide) (by decide) (by decide) (by decide), by decide, by decide, by decide,
+          by decide, ⟨0o700, none, by decide +kernel⟩⟩, by simp,
+        by decide, ⟨goodName_single _ (by decide) (by decide) (by decide) (by decide), by decide, by decide, by decide,
+          ⟨0o644, none, [90], by decide +kernel⟩⟩, by simp, trivial⟩, by simp, trivial⟩
+      intro x hx
+      have hl := hx.length_le
+      simp only [List.length_append, List.length_cons, List.length_nil] at hl
+      unfold dfs
+      have h1 : x ≠ [] := by intro e; subst e; simp at hl
+      have h2 : x ≠ [[119]] := by intro e; subst e; simp at hl
+      have h3 : x ≠ [[119], [100]] := by intro e; subst e; simp at hl
+      have h4 : x ≠ [[119], [100], [116]] := by intro e; subst e; simp at hl
+      have h5 : x ≠ [[119], [100], [116], [120]] := by intro e; subst e; simp at hx
+      have h6 : x ≠ [[119], [100], [116], [120], [107]] := by intro e; subst e; simp at hx
+      have h7 : x ≠ [[119], [100], [116], [121]] := by intro e; subst e; simp at hx
+      simp [h1, h2, h3, h4, h5, h6, h7])
+  exact ⟨h.1, h.2.1⟩
 
 /-! ## forward copy to N targets: the fan-out LTS of C03 composed with one sender session per target -/
 
